@@ -147,6 +147,10 @@ class C12(HistoryProperty):
                 surfaced = self._check_failure(res, wf, wf.prog.obj[op["node"]], out, i, op, desc)
                 if res.violations:
                     return
+                if surfaced and len(fired_here) > 1:
+                    # several faults fired in this op and only one reached the caller: the others were masked, and what a
+                    # masked fault's fallback path stored is outside the statement
+                    surfaced = False
                 if not surfaced:
                     res.bump("fault_masked_op_failed_otherwise")
                     surfaced_all = False
